@@ -264,8 +264,10 @@ def check(run, prog, tier):
     e0 = engine(prog, NoInline())
     spaths = e0.paths(stop, recv=INST)
     run.paths += len(spaths)
-    for cyc in (11, 0):
-        leaf = timing_leaf(me, {"CYCLIC_OFFER_DELAY": cyc}, extra=lambda tm: (object(),) if tm == ("attr", me, "_task") else None)
+    for cyc, announced in ((11, True), (0, True), (11, False), (0, False)):
+        # `announced`: the may-answer flag (set once the first offer went out) is state stop() may consult
+        leaf = timing_leaf(me, {"CYCLIC_OFFER_DELAY": cyc}, extra=lambda tm, announced=announced: (
+            (object(),) if tm == ("attr", me, "_task") else (announced,) if tm == ("attr", me, "_can_answer_offers") else None))
         hits = []
         for p in spaths:
             try:
@@ -281,6 +283,12 @@ def check(run, prog, tier):
         other = [e for e in offer_sends(p, so.qual) if not is_stop_offer(e, so)]
         cancels = [e for e in p.events if e.kind == "call" and e.attrname == "cancel" and e.recv == ("attr", me, "_task")]
         want = 0 if cyc else 1
+        if not announced:
+            # before the first offer: a cyclic instance sends nothing; for a non-cyclic one the statement leaves it open
+            okb = not other and len(cancels) == 1 and (len(st) == 0 if cyc else len(st) <= 1)
+            run.ob("O2", f"{stop.qual}:stop-before-first-offer[{'cyclic' if cyc else 'non-cyclic'}]", okb, loc(stop),
+                   f"stop() before the first offer: cancels the task {len(cancels)}x, sends {len(st)} StopOffer(s), {len(other)} offer(s)")
+            continue
         ok = len(st) == want and not other and len(cancels) == 1
         run.ob("O2", f"{stop.qual}:stop-offer[{'cyclic' if cyc else 'non-cyclic'}]", ok, loc(stop),
                f"stop() of a {'cyclic' if cyc else 'non-cyclic'} instance: cancels the task {len(cancels)}x, sends {len(st)} StopOffer(s) itself (expected {want}; "
